@@ -1,6 +1,9 @@
 package c20
 
 import (
+	"sync"
+	"strconv"
+	"bytes"
 	"context"
 	"fmt"
 	"math"
@@ -56,6 +59,12 @@ func tickOf(t time.Time) int64      { return int64(t.Sub(epoch) / time.Second) }
 
 var traitPool = []trait.Name{trait.AirQualitySensor, trait.Electric, trait.FanSpeed, trait.Light, trait.Metadata, trait.OnOff}
 
+// widePool: what a gateway announces in one go after discovering a device: two or three dozen names, some of them more than once
+var widePool = []trait.Name{trait.Access, trait.AirQualitySensor, trait.AirTemperature, trait.Booking, trait.BrightnessSensor, trait.Channel, trait.Color, trait.Count, trait.Electric,
+	trait.Emergency, trait.EnergyStorage, trait.EnterLeaveSensor, trait.ExtendRetract, trait.FanSpeed, trait.Hail, trait.InputSelect, trait.Light, trait.LockUnlock, trait.Metadata,
+	trait.Meter, trait.Microphone, trait.Mode, trait.MotionSensor, trait.OccupancySensor, trait.OnOff, trait.OpenClose, trait.Parent, trait.Press, trait.Publication, trait.Ptz,
+	trait.Speaker, trait.Temperature, trait.Vending, trait.Waste}
+
 func TestParentTraits(t *testing.T) {
 	rapid.Check(t, func(t *rapid.T) {
 		m := parentpb.NewModel()
@@ -67,9 +76,18 @@ func TestParentTraits(t *testing.T) {
 		for i := 0; i < n; i++ {
 			child := rapid.SampledFrom(children).Draw(t, "child")
 			k := rapid.IntRange(0, 4).Draw(t, "k")
+			pool := traitPool
+			if rapid.IntRange(0, 3).Draw(t, "batch") == 0 {
+				k = rapid.IntRange(5, 48).Draw(t, "kBatch")
+				pool = widePool
+				if rapid.Bool().Draw(t, "narrowBatch") {
+					pool = widePool[:12] // repeats within the batch are then the rule
+				}
+				lib.Ev.Class("parent: one call with 5-48 names")
+			}
 			names := make([]trait.Name, k)
 			for j := range names {
-				names[j] = rapid.SampledFrom(traitPool).Draw(t, "trait")
+				names[j] = rapid.SampledFrom(pool).Draw(t, "trait")
 			}
 			add := rapid.IntRange(0, 2).Draw(t, "add") > 0
 			var got *traits.Child
@@ -641,6 +659,29 @@ func TestMeterTimes(t *testing.T) {
 
 // ---- publication ---------------------------------------------------------------------------------------------------
 
+// pubBodies name the publication bodies in use: two small ones (twice, so that small stays the common case) and large
+// documents (a firmware image, a floor plan) of equal length that differ in a single byte at the start, in the middle
+// or at the end, plus sizes around 64 KiB.
+var pubBodies = []string{"b1", "b2", "b1", "b2", "L:262144:mid:a", "L:262144:mid:b", "L:262144:head:a", "L:262144:tail:a", "b3", "L:65536:mid:a", "L:65537:mid:a", "L:65537:mid:b", "L:1048576:mid:a", "L:1048576:mid:b"}
+
+var pubBodyCache sync.Map
+
+func pubBody(key string) []byte {
+	if !strings.HasPrefix(key, "L:") {
+		return []byte(key)
+	}
+	if b, ok := pubBodyCache.Load(key); ok {
+		return append([]byte(nil), b.([]byte)...)
+	}
+	parts := strings.Split(key, ":")
+	n, _ := strconv.Atoi(parts[1])
+	b := bytes.Repeat([]byte("x"), n)
+	pos := map[string]int{"head": 0, "mid": n / 2, "tail": n - 1}[parts[2]]
+	b[pos] = parts[3][0]
+	pubBodyCache.Store(key, b)
+	return append([]byte(nil), b...)
+}
+
 func TestPublicationVersions(t *testing.T) {
 	rapid.Check(t, func(t *rapid.T) {
 		clk := &tickClock{}
@@ -651,10 +692,10 @@ func TestPublicationVersions(t *testing.T) {
 		var cur content
 		var hist []string
 		gen := func() content {
-			return content{rapid.SampledFrom([]string{"b1", "b2"}).Draw(t, "body"), rapid.SampledFrom([]string{"", "text/plain"}).Draw(t, "media"), rapid.SampledFrom([]string{"", "aud"}).Draw(t, "aud")}
+			return content{rapid.SampledFrom(pubBodies[:8]).Draw(t, "body"), rapid.SampledFrom([]string{"", "text/plain"}).Draw(t, "media"), rapid.SampledFrom([]string{"", "aud"}).Draw(t, "aud")}
 		}
 		mk := func(c content) *traits.Publication {
-			return &traits.Publication{Id: "p", Body: []byte(c.body), MediaType: c.media, Audience: &traits.Publication_Audience{Name: c.aud}}
+			return &traits.Publication{Id: "p", Body: pubBody(c.body), MediaType: c.media, Audience: &traits.Publication_Audience{Name: c.aud}}
 		}
 		cur = gen()
 		c0 := clk.peek()
@@ -684,15 +725,15 @@ func TestPublicationVersions(t *testing.T) {
 						UpdateMask: &fieldmaskpb.FieldMask{Paths: []string{"audience.name"}}, Version: before.Version})
 					hist = append(hist, fmt.Sprintf("update-masked(audience.name=%s)", c.aud))
 				} else {
-					c.body = rapid.SampledFrom([]string{"b1", "b2", "b3"}).Draw(t, "maskedBody")
-					res, err = srv.UpdatePublication(ctx, &traits.UpdatePublicationRequest{Name: "n", Publication: &traits.Publication{Id: "p", Body: []byte(c.body)},
+					c.body = rapid.SampledFrom(pubBodies).Draw(t, "maskedBody")
+					res, err = srv.UpdatePublication(ctx, &traits.UpdatePublicationRequest{Name: "n", Publication: &traits.Publication{Id: "p", Body: pubBody(c.body)},
 						UpdateMask: &fieldmaskpb.FieldMask{Paths: []string{"body"}}, Version: before.Version})
 					hist = append(hist, fmt.Sprintf("update-masked(body=%s)", c.body))
 				}
 				if err != nil {
 					t.Fatalf("masked UpdatePublication with the current version failed: %v\nhistory: %s", err, strings.Join(hist, " "))
 				}
-				if string(res.Body) != c.body || res.MediaType != c.media || res.GetAudience().GetName() != c.aud {
+				if string(res.Body) != string(pubBody(c.body)) || res.MediaType != c.media || res.GetAudience().GetName() != c.aud {
 					t.Fatalf("masked update gave %v, want body %q, media type %q and audience %q (only the masked part changes)\nhistory: %s", res, c.body, c.media, c.aud, strings.Join(hist, " "))
 				}
 				if v, ok := versionOf[c]; ok && v != res.Version {
